@@ -57,24 +57,33 @@ structure NodeRec where
   attrs : List (Nat × Nat) := []      -- attributes: (key token, value token) in dict order
   qn : Nat := 0                       -- qname token (opaque)
 
-/-- the heap: every id holds a record.  (A structure around the function, not the bare function
-    type: a definition returning a structure is compiled strictly, so the driver does not
-    recompute old records on every lookup.) -/
+/-- the heap: a finite map from ids to records, kept as the list of assignments made so far (latest
+    first); an id that was never assigned holds the blank record.  (Data, not a closure: the compiled
+    drivers would otherwise re-run whole operations on every lookup.) -/
 structure Heap where
-  get : Id → NodeRec
+  recs : List (Id × NodeRec)
+
+/-- the record of node `i` -/
+def Heap.get (h : Heap) (i : Id) : NodeRec :=
+  match h.recs.lookup i with
+  | some r => r
+  | none => {}
 
 instance : CoeFun Heap (fun _ => Id → NodeRec) := ⟨Heap.get⟩
 
-def Heap.empty : Heap := ⟨fun _ => {}⟩
+def Heap.empty : Heap := ⟨[]⟩
 
-@[noinline] def Heap.set (h : Heap) (i : Id) (r : NodeRec) : Heap := ⟨fun j => if j = i then r else h j⟩
+def Heap.set (h : Heap) (i : Id) (r : NodeRec) : Heap := ⟨(i, r) :: h.recs⟩
 
-@[simp] theorem Heap.set_same (h : Heap) (i r) : (h.set i r) i = r := by simp [Heap.set]
-theorem Heap.set_other (h : Heap) (i j r) (hne : j ≠ i) : (h.set i r) j = h j := by simp [Heap.set, hne]
-theorem Heap.set_apply (h : Heap) (i j r) : (h.set i r) j = if j = i then r else h j := rfl
+theorem Heap.set_apply (h : Heap) (i j r) : (h.set i r) j = if j = i then r else h j := by
+  simp only [Heap.set, Heap.get, List.lookup]
+  by_cases hji : j = i
+  · subst hji; simp
+  · have : (j == i) = false := by simp [hji]
+    simp [this, hji]
+@[simp] theorem Heap.set_same (h : Heap) (i r) : (h.set i r) i = r := by simp [Heap.set_apply]
+theorem Heap.set_other (h : Heap) (i j r) (hne : j ≠ i) : (h.set i r) j = h j := by simp [Heap.set_apply, hne]
 @[simp] theorem Heap.empty_apply (i : Id) : Heap.empty i = {} := rfl
-theorem Heap.ext {h h' : Heap} (e : ∀ i, h i = h' i) : h = h' := by
-  cases h; cases h'; congr; funext i; exact e i
 
 /-! ### one setter per Python assignment -/
 def setKids (h : Heap) (i : Id) (v : List Id) : Heap := h.set i { h i with kids := v }
@@ -92,75 +101,75 @@ def setNextOpt (h : Heap) (o : Option Id) (v : Option Id) : Heap :=
 section fields
 variable (h : Heap) (i q : Id)
 @[simp] theorem setKids_kind (v) : (setKids h i v q).kind = (h q).kind := by
-  simp only [setKids, Heap.set]; split <;> simp_all
+  simp only [setKids, Heap.set_apply]; split <;> simp_all
 @[simp] theorem setKids_parent (v) : (setKids h i v q).parent = (h q).parent := by
-  simp only [setKids, Heap.set]; split <;> simp_all
+  simp only [setKids, Heap.set_apply]; split <;> simp_all
 @[simp] theorem setKids_prev (v) : (setKids h i v q).prev = (h q).prev := by
-  simp only [setKids, Heap.set]; split <;> simp_all
+  simp only [setKids, Heap.set_apply]; split <;> simp_all
 @[simp] theorem setKids_next (v) : (setKids h i v q).next = (h q).next := by
-  simp only [setKids, Heap.set]; split <;> simp_all
+  simp only [setKids, Heap.set_apply]; split <;> simp_all
 @[simp] theorem setKids_kids (v) : (setKids h i v q).kids = if q = i then v else (h q).kids := by
-  simp only [setKids, Heap.set]; split <;> simp_all
+  simp only [setKids, Heap.set_apply]; split <;> simp_all
 @[simp] theorem setKids_attrs (v) : (setKids h i v q).attrs = (h q).attrs := by
-  simp only [setKids, Heap.set]; split <;> simp_all
+  simp only [setKids, Heap.set_apply]; split <;> simp_all
 @[simp] theorem setKids_qn (v) : (setKids h i v q).qn = (h q).qn := by
-  simp only [setKids, Heap.set]; split <;> simp_all
+  simp only [setKids, Heap.set_apply]; split <;> simp_all
 @[simp] theorem setPrev_kind (v) : (setPrev h i v q).kind = (h q).kind := by
-  simp only [setPrev, Heap.set]; split <;> simp_all
+  simp only [setPrev, Heap.set_apply]; split <;> simp_all
 @[simp] theorem setPrev_parent (v) : (setPrev h i v q).parent = (h q).parent := by
-  simp only [setPrev, Heap.set]; split <;> simp_all
+  simp only [setPrev, Heap.set_apply]; split <;> simp_all
 @[simp] theorem setPrev_prev (v) : (setPrev h i v q).prev = if q = i then v else (h q).prev := by
-  simp only [setPrev, Heap.set]; split <;> simp_all
+  simp only [setPrev, Heap.set_apply]; split <;> simp_all
 @[simp] theorem setPrev_next (v) : (setPrev h i v q).next = (h q).next := by
-  simp only [setPrev, Heap.set]; split <;> simp_all
+  simp only [setPrev, Heap.set_apply]; split <;> simp_all
 @[simp] theorem setPrev_kids (v) : (setPrev h i v q).kids = (h q).kids := by
-  simp only [setPrev, Heap.set]; split <;> simp_all
+  simp only [setPrev, Heap.set_apply]; split <;> simp_all
 @[simp] theorem setPrev_attrs (v) : (setPrev h i v q).attrs = (h q).attrs := by
-  simp only [setPrev, Heap.set]; split <;> simp_all
+  simp only [setPrev, Heap.set_apply]; split <;> simp_all
 @[simp] theorem setPrev_qn (v) : (setPrev h i v q).qn = (h q).qn := by
-  simp only [setPrev, Heap.set]; split <;> simp_all
+  simp only [setPrev, Heap.set_apply]; split <;> simp_all
 @[simp] theorem setNext_kind (v) : (setNext h i v q).kind = (h q).kind := by
-  simp only [setNext, Heap.set]; split <;> simp_all
+  simp only [setNext, Heap.set_apply]; split <;> simp_all
 @[simp] theorem setNext_parent (v) : (setNext h i v q).parent = (h q).parent := by
-  simp only [setNext, Heap.set]; split <;> simp_all
+  simp only [setNext, Heap.set_apply]; split <;> simp_all
 @[simp] theorem setNext_prev (v) : (setNext h i v q).prev = (h q).prev := by
-  simp only [setNext, Heap.set]; split <;> simp_all
+  simp only [setNext, Heap.set_apply]; split <;> simp_all
 @[simp] theorem setNext_next (v) : (setNext h i v q).next = if q = i then v else (h q).next := by
-  simp only [setNext, Heap.set]; split <;> simp_all
+  simp only [setNext, Heap.set_apply]; split <;> simp_all
 @[simp] theorem setNext_kids (v) : (setNext h i v q).kids = (h q).kids := by
-  simp only [setNext, Heap.set]; split <;> simp_all
+  simp only [setNext, Heap.set_apply]; split <;> simp_all
 @[simp] theorem setNext_attrs (v) : (setNext h i v q).attrs = (h q).attrs := by
-  simp only [setNext, Heap.set]; split <;> simp_all
+  simp only [setNext, Heap.set_apply]; split <;> simp_all
 @[simp] theorem setNext_qn (v) : (setNext h i v q).qn = (h q).qn := by
-  simp only [setNext, Heap.set]; split <;> simp_all
+  simp only [setNext, Heap.set_apply]; split <;> simp_all
 @[simp] theorem setParent_kind (v) : (setParent h i v q).kind = (h q).kind := by
-  simp only [setParent, Heap.set]; split <;> simp_all
+  simp only [setParent, Heap.set_apply]; split <;> simp_all
 @[simp] theorem setParent_parent (v) : (setParent h i v q).parent = if q = i then v else (h q).parent := by
-  simp only [setParent, Heap.set]; split <;> simp_all
+  simp only [setParent, Heap.set_apply]; split <;> simp_all
 @[simp] theorem setParent_prev (v) : (setParent h i v q).prev = (h q).prev := by
-  simp only [setParent, Heap.set]; split <;> simp_all
+  simp only [setParent, Heap.set_apply]; split <;> simp_all
 @[simp] theorem setParent_next (v) : (setParent h i v q).next = (h q).next := by
-  simp only [setParent, Heap.set]; split <;> simp_all
+  simp only [setParent, Heap.set_apply]; split <;> simp_all
 @[simp] theorem setParent_kids (v) : (setParent h i v q).kids = (h q).kids := by
-  simp only [setParent, Heap.set]; split <;> simp_all
+  simp only [setParent, Heap.set_apply]; split <;> simp_all
 @[simp] theorem setParent_attrs (v) : (setParent h i v q).attrs = (h q).attrs := by
-  simp only [setParent, Heap.set]; split <;> simp_all
+  simp only [setParent, Heap.set_apply]; split <;> simp_all
 @[simp] theorem setParent_qn (v) : (setParent h i v q).qn = (h q).qn := by
-  simp only [setParent, Heap.set]; split <;> simp_all
+  simp only [setParent, Heap.set_apply]; split <;> simp_all
 @[simp] theorem setAttrs_kind (v) : (setAttrs h i v q).kind = (h q).kind := by
-  simp only [setAttrs, Heap.set]; split <;> simp_all
+  simp only [setAttrs, Heap.set_apply]; split <;> simp_all
 @[simp] theorem setAttrs_parent (v) : (setAttrs h i v q).parent = (h q).parent := by
-  simp only [setAttrs, Heap.set]; split <;> simp_all
+  simp only [setAttrs, Heap.set_apply]; split <;> simp_all
 @[simp] theorem setAttrs_prev (v) : (setAttrs h i v q).prev = (h q).prev := by
-  simp only [setAttrs, Heap.set]; split <;> simp_all
+  simp only [setAttrs, Heap.set_apply]; split <;> simp_all
 @[simp] theorem setAttrs_next (v) : (setAttrs h i v q).next = (h q).next := by
-  simp only [setAttrs, Heap.set]; split <;> simp_all
+  simp only [setAttrs, Heap.set_apply]; split <;> simp_all
 @[simp] theorem setAttrs_kids (v) : (setAttrs h i v q).kids = (h q).kids := by
-  simp only [setAttrs, Heap.set]; split <;> simp_all
+  simp only [setAttrs, Heap.set_apply]; split <;> simp_all
 @[simp] theorem setAttrs_attrs (v) : (setAttrs h i v q).attrs = if q = i then v else (h q).attrs := by
-  simp only [setAttrs, Heap.set]; split <;> simp_all
+  simp only [setAttrs, Heap.set_apply]; split <;> simp_all
 @[simp] theorem setAttrs_qn (v) : (setAttrs h i v q).qn = (h q).qn := by
-  simp only [setAttrs, Heap.set]; split <;> simp_all
+  simp only [setAttrs, Heap.set_apply]; split <;> simp_all
 variable (o : Option Id)
 @[simp] theorem setPrevOpt_kind (v) : (setPrevOpt h o v q).kind = (h q).kind := by
   unfold setPrevOpt; split <;> simp
